@@ -4,7 +4,7 @@
    hypothesis the line search needs: one prox-Newton iteration keeps Xw = X w + c. *)
 From Coq Require Import Reals Lra Lia ZArith List Bool.
 Require Import SK.Base.Res SK.Base.Num SK.Base.RInst SK.Lemmas.VecFacts SK.Lemmas.Loops SK.Lemmas.Csc SK.Lemmas.Consistency
-               SK.Lemmas.BcdEpoch SK.Lemmas.BcdCons SK.Lemmas.PnKernels.
+               SK.Lemmas.BcdBase SK.Lemmas.BcdCons SK.Lemmas.PnKernels.
 Require Import SK.Gen.KernCD SK.Gen.KernPN.
 Import ListNotations.
 Local Open Scope R_scope.
